@@ -87,8 +87,8 @@ static void run_config(const Config & c, uint64_t seed, long n_iid, int n_grid)
   size_t pd0 = tape.pos;
   bool accepted_ref = ref_ok && rier == 0;
   bool accepted_port = pier == 0;
-  fprintf(OUT, "{\"config\":%s,\"name\":%s,\"level\":%d,\"mode\":%d,\"window\":%s,\"ref_ier\":%d,\"port_ier\":%d,", jstr(lab).c_str(), jstr(c.name).c_str(),
-          c.level, c.mode, c.window ? "true" : "false", ref_ok ? rier : -98, pier);
+  fprintf(OUT, "{\"config\":%s,\"name\":%s,\"level\":%d,\"mode\":%d,\"window\":%s,\"ref_ier\":%d,\"port_ier\":%d,\"nme\":[%.17g,%.17g,%.17g,%.17g,%.17g,%.17g,%.17g],", jstr(lab).c_str(), jstr(c.name).c_str(),
+          c.level, c.mode, c.window ? "true" : "false", ref_ok ? rier : -98, pier, c.nme[0], c.nme[1], c.nme[2], c.nme[3], c.nme[4], c.nme[5], c.nme[6]);
   if (accepted_ref != accepted_port) {
     record(st.mm, lab + "|ier", fmt("reference ier=%d, port ier=%d %s", ref_ok ? rier : -98, pier, pexc.c_str()));
   }
@@ -122,6 +122,13 @@ static void run_config(const Config & c, uint64_t seed, long n_iid, int n_grid)
     if (std::fabs(re1 - pars.ebb1) > 1e-12 || std::fabs(re2 - pars.ebb2) > 1e-12)
       record(st.mm, lab + "|range", fmt("clamped range reference [%.12g,%.12g], port [%.12g,%.12g]", re1, re2, pars.ebb1, pars.ebb2));
     if (rlevelE != pars.levelE) record(st.mm, lab + "|levelE", fmt("levelE reference %d, port %d", rlevelE, pars.levelE));
+    {
+      // the process parameters both sides hand to their spectrum and angular-correlation functions (common/helpbb/ vs bbpars)
+      double rz = 0, ra = 0, re0 = 0;
+      vf_gethelpbb_(&rz, &ra, &re0);
+      if (rz != pars.Zd || ra != pars.Ad || std::fabs(re0 - pars.e0) > 1e-12)
+        record(st.mm, "dbd/" + c.name + "|process-parameters", lab + fmt(": (Zd, Ad, e0) reference (%g, %g, %.12g), port (%g, %g, %.12g)", rz, ra, re0, pars.Zd, pars.Ad, pars.e0));
+    }
     // porcelain instance of the same configuration
     bxdecay0::decay0_generator gen;
     bool gen_ok = true;
